@@ -80,38 +80,7 @@ fn handle_client(stream: TcpStream, dbs: Arc<Databases>) {
                 log::debug!("Command print: {}", clean_string_to_log(&buf, &dbs));
                 match buf.as_ref() {
                     "" => {
-                        log::debug!("killing socket client, because of disconnected!!");
-                        process_request("unwatch-all", &dbs, &mut client);
-                        let member = &*client.cluster_member.lock().unwrap();
-                        if let Some(m) = member {
-                            match m.role {
-                                ClusterRole::Primary => {
-                                    log::debug!("Primary Cluster member disconnected: {}", m.name);
-                                    process_leave_request(&format!("leave {}", m.name), &dbs);
-                                }
-                                ClusterRole::Secoundary => {
-                                    log::debug!(
-                                        "Secoundary Cluster member disconnected: {}",
-                                        m.name
-                                    );
-                                    process_leave_request(
-                                        &format!("replicate-leave {}", m.name),
-                                        &dbs,
-                                    ); // replicate-leave does not efornce election
-                                }
-                                ClusterRole::StartingUp => {
-                                    log::debug!(
-                                        "ClusterMember {} died while still in StartingUp mode",
-                                        m.name
-                                    );
-                                    process_leave_request(
-                                        &format!("replicate-leave {}", m.name),
-                                        &dbs,
-                                    ); // replicate-leave does not efornce election
-                                }
-                            }
-                        }
-                        client.left(&dbs);
+                        session_ended(&mut client, &dbs);
                         break;
                     }
                     _ => match process_request(&buf, &dbs, &mut client) {
@@ -140,35 +109,100 @@ fn handle_client(stream: TcpStream, dbs: Arc<Databases>) {
                 buf.clear();
                 // The answers go out as they are produced: a client that sends more lines at once
                 // than the session's channel holds would lose the answers that do not fit
-                while write_next_message(&mut receiver, writer) {}
+                let mut client_gone = false;
+                loop {
+                    match write_next_message(&mut receiver, writer) {
+                        Ok(true) => (),
+                        Ok(false) => break,
+                        Err(e) => {
+                            log::warn!("process_message Error: {}", e);
+                            client_gone = true;
+                            break;
+                        }
+                    }
+                }
+                if client_gone {
+                    session_ended(&mut client, &dbs);
+                    break;
+                }
             }
-            _ => process_message(&mut receiver, writer),
+            _ => {
+                if !process_message(&mut receiver, writer) {
+                    session_ended(&mut client, &dbs);
+                    break;
+                }
+            }
         }
     }
 }
-fn process_message(receiver: &mut Receiver<String>, writer: &mut BufWriter<&TcpStream>) {
-    if !write_next_message(receiver, writer) {
-        thread::sleep(time::Duration::from_millis(2));
+/// The connection is over (end of the stream, or the client can no longer be written to): the
+/// session gives up what it holds
+fn session_ended(client: &mut Client, dbs: &Arc<Databases>) {
+    log::debug!("killing socket client, because of disconnected!!");
+    process_request("unwatch-all", &dbs, client);
+    let member = &*client.cluster_member.lock().unwrap();
+    if let Some(m) = member {
+        match m.role {
+            ClusterRole::Primary => {
+                log::debug!("Primary Cluster member disconnected: {}", m.name);
+                process_leave_request(&format!("leave {}", m.name), &dbs);
+            }
+            ClusterRole::Secoundary => {
+                log::debug!("Secoundary Cluster member disconnected: {}", m.name);
+                process_leave_request(&format!("replicate-leave {}", m.name), &dbs);
+                // replicate-leave does not efornce election
+            }
+            ClusterRole::StartingUp => {
+                log::debug!(
+                    "ClusterMember {} died while still in StartingUp mode",
+                    m.name
+                );
+                process_leave_request(&format!("replicate-leave {}", m.name), &dbs);
+                // replicate-leave does not efornce election
+            }
+        }
+    }
+    client.left(&dbs);
+}
+
+/// false if the client is gone
+fn process_message(receiver: &mut Receiver<String>, writer: &mut BufWriter<&TcpStream>) -> bool {
+    match write_next_message(receiver, writer) {
+        Ok(true) => true,
+        Ok(false) => {
+            thread::sleep(time::Duration::from_millis(2));
+            true
+        }
+        Err(e) => {
+            log::warn!("process_message Error: {}", e);
+            false
+        }
     }
 }
 
-/// Writes the next queued message to the socket, false if there was none
-fn write_next_message(receiver: &mut Receiver<String>, writer: &mut BufWriter<&TcpStream>) -> bool {
+/// Writes the next queued message to the socket, Ok(false) if there was none, Err if the client is
+/// gone. The write itself is done in blocking mode: on the non blocking socket a client that reads
+/// slowly made it fail with WouldBlock, and the unwrap ended the session's thread without the clean
+/// up of the session (its subscriptions and its place in $connections stayed for ever)
+fn write_next_message(
+    receiver: &mut Receiver<String>,
+    writer: &mut BufWriter<&TcpStream>,
+) -> std::io::Result<bool> {
     match receiver.try_next() {
         Ok(message_opt) => match message_opt {
             Some(message) => {
-                writer.write_fmt(format_args!("{}", message)).unwrap();
-                match writer.flush() {
-                    Ok(_n) => (),
-                    Err(e) => log::warn!("process_message Error: {}", e),
-                }
-                true
+                writer.get_ref().set_nonblocking(false)?;
+                let written = writer
+                    .write_fmt(format_args!("{}", message))
+                    .and_then(|_| writer.flush());
+                writer.get_ref().set_nonblocking(true)?;
+                written.map(|_| true)
             }
             None => {
                 log::debug!("tcp_ops::process_message::Empty message");
-                false
+                Ok(false)
             }
         },
-        _ => false,
+        _ => Ok(false),
     }
 }
